@@ -1604,7 +1604,7 @@ def small_scope(thorough):
                         ops.append({'k': 'setRows', 'sel': sel, 'v': v, 'form': form})
             csels = [{'slice': s} for s in slices] + [{'int': j} for j in range(-max(L) - 1, max(L) + 1)] + \
                     [{'list': [0, -1], 'np': True}]
-            rsels = [{'slice': s} for s in (slices[::7] if not thorough else slices[::19])] + [{'list': [0, -1], 'np': True}]
+            rsels = [{'slice': s} for s in (slices[::7] if not thorough else slices[::23])] + [{'list': [0, -1], 'np': True}]
             if thorough and ctor in ('lists', 'flat'):
                 rsels = rsels[::4]
             for r in rsels:
@@ -1849,7 +1849,7 @@ def big_histories(ctx, cfg, rng):
 # ================================================================== entry points
 QUICK_FAMILIES = [('std', 350), ('dtype', 90), ('mixed', 90), ('views', 50), ('empty-rows', 40),
                   ('scale-up', 20), ('scale-down', 20)]
-THOROUGH_FAMILIES = [('std', 5000), ('dtype', 1200), ('mixed', 1200), ('views', 600), ('empty-rows', 500),
+THOROUGH_FAMILIES = [('std', 4000), ('dtype', 1200), ('mixed', 1200), ('views', 600), ('empty-rows', 500),
                      ('scale-up', 250), ('scale-down', 250)]
 
 
